@@ -846,7 +846,10 @@ class Frame:
             if kw.arg is None:
                 if v[0] == "d" and all(k[0] == "k" and isinstance(k[1], str) for k, _ in v[1]):
                     for k, x in v[1]:
-                        kwargs[k[1]] = x
+                        if k[1] == "**":  # a spread inside the literal: keep every one of them
+                            kwargs["**"] = x if "**" not in kwargs else ("t", (kwargs["**"], x))
+                        else:
+                            kwargs[k[1]] = x
                 else:
                     kwargs["**"] = v if "**" not in kwargs else ("t", (kwargs["**"], v))
             else:
